@@ -63,8 +63,10 @@ class C07(E1Check):
             for p, nd in paths(SHAPES[shape]):
                 for phase in ("ctor", "prepare", "start"):
                     for pos in (("before",) if phase == "ctor" else ("before", "after")):
-                        for cls in ("E", "E2", "K", "E+hs"):
-                            if cls == "K" and phase == "ctor":
+                        for cls in ("E", "E2", "K", "E+hs", "G", "T"):
+                            if cls in ("K", "G", "T") and phase == "ctor":
+                                continue
+                            if cls in ("G", "T") and pos == "after" and tier == "quick":
                                 continue
                             for absent in ("", "noprep"):
                                 for timeout in ((5,) if tier == "quick" else (5, None)):
@@ -152,7 +154,7 @@ class C07(E1Check):
                 if f["phase"] == "ctor" and getattr(exc.component_type, "_vpath", None) != f["path"]:
                     fail("wrong-error", f"ComponentStartError.component_type is {exc.component_type!r} for a failure creating {f['path']!r}")
                 cause = exc.__cause__
-                want = CompFail if f["cls"] == "E" else KeyError if f["cls"] == "K" else CompFail2
+                want = {"E": CompFail, "K": KeyError, "G": ExceptionGroup, "T": TimeoutError}.get(f["cls"], CompFail2)
                 if type(cause) is not want or not tree.raised or cause is not tree.raised[0]:
                     fail("wrong-cause", f"__cause__ is {cause!r}, the component raised {want.__name__}")
             # siblings still starting are stopped: nothing has to complete before start_component raises - it has raised by the
